@@ -25,7 +25,7 @@ RULE = ("one run = document containing the E cell (run index mod 144) + schedule
         "(segment neighbourhood digest) values")
 PROBES = ["cell_checked", "edge_before_segments", "after_rename", "after_removal", "whole_whole_either",
           "self_edge", "gap_checked", "link_checked", "containment_checked", "derived_queries", "flip_ref",
-          "derived_while_unsettled", "edge_reshaped"]
+          "derived_while_unsettled", "edge_reshaped", "other_end_hairpin"]
 KINDS = G.INTERVAL_KINDS
 CELLS = [(o1, o2, k1, k2) for o1 in "+-" for o2 in "+-" for k1 in KINDS for k2 in KINDS]
 
@@ -278,6 +278,19 @@ def derived(g, st, n):
                     oname = other_seg if isinstance(other_seg, str) else other_seg.name
                     if oname != o.value.name and l.from_segment is not l.to_segment:
                         raise core.Violation("other-end-mismatch", "%r other_end/other disagree" % ob.line_text(l),
+                                             coll="dovetails_" + end)
+                    # the edge joins its two ends: the other end of the one asked about is the other one of the
+                    # pair (the same end again when an end is joined with itself), and the line is filed there
+                    here = "%s%s" % (s.name, end)
+                    exp_other = ends[1] if ends[0] == here else ends[0]
+                    st.count("probe.other_end_hairpin" if ends[0] == ends[1] else "oracle.other_end")
+                    if str(oe.value) != exp_other:
+                        raise core.Violation("other-end-mismatch", "after step %d: %r joins %r; other_end(%s) = %s" %
+                                             (n, ob.line_text(l), ends, here, str(oe.value)), coll="dovetails_" + end)
+                    if not isinstance(other_seg, str) and \
+                            not any(x is l for x in getattr(other_seg, "dovetails_" + oe.value.end_type)):
+                        raise core.Violation("other-end-mismatch", "after step %d: other_end(%s) of %r = %s, where the "
+                                             "line is not filed" % (n, here, ob.line_text(l), str(oe.value)),
                                              coll="dovetails_" + end)
                 if not l.is_dovetail() or l.is_containment() or l.is_internal():
                     raise core.Violation("type-mismatch", "%r is filed as dovetail but reports another type" %
